@@ -1,7 +1,7 @@
 #!/venv/bin/python
 """Evaluate seeded changes produced by independent sub-agents.
 
-usage: seedtest.py <Cxx> <out_dir_of_agent> [--pytest] [--checks C01,C04]
+usage: seedtest.py <Cxx> <out_dir_of_agent> [--pytest] [--checks=C01,C04] [--tag=r2]
 
 For every <out_dir>/<k>/{patch.diff,demo.py,meta.json}:
   1. demo on the unchanged sources must exit 0, on a patched scratch copy non-zero;
@@ -31,14 +31,20 @@ def main():
     out_dir = sys.argv[2]
     do_pytest = "--pytest" in sys.argv
     checks = [pid]
+    tag = ""
     for a in sys.argv:
         if a.startswith("--checks="):
             checks = a.split("=", 1)[1].split(",")
+        if a.startswith("--tag="):      # e.g. --tag=r2 for a second round: stored as <Cxx>-r2-<k>
+            tag = a.split("=", 1)[1] + "-"
     results = []
     for k in sorted(os.listdir(out_dir)):
         d = os.path.join(out_dir, k)
+        if not os.path.isdir(d):
+            continue
         if not os.path.isfile(os.path.join(d, "patch.diff")):
             continue
+        k = tag + k
         scratch = "/tmp/mutrun/%s-%s" % (pid, k)
         shutil.rmtree(scratch, ignore_errors=True)
         os.makedirs(scratch)
